@@ -310,7 +310,14 @@ class XsdWildcard(XsdComponent):
 
         w1: XsdWildcard
         w2: XsdWildcard
-        if not other.namespace or '##any' in self.namespace or self.namespace == other.namespace:
+        if not other.namespace or '##any' in self.namespace:
+            return
+        elif self.namespace == other.namespace:
+            if '##other' in self.namespace and \
+                    self.target_namespace != other.target_namespace:
+                # ##other of two different schemas: only the absent namespace is excluded
+                self.namespace.clear()
+                self.not_namespace = {''}
             return
         elif '##any' in other.namespace:
             self.namespace.clear()
@@ -371,6 +378,11 @@ class XsdWildcard(XsdComponent):
             return
 
         if self.namespace == other.namespace:
+            if '##other' in self.namespace and \
+                    self.target_namespace != other.target_namespace:
+                # ##other of two different schemas: both target namespaces are excluded
+                self.not_namespace = {'', self.target_namespace, other.target_namespace}
+                self.namespace.clear()
             return
         elif '##any' in other.namespace:
             return
